@@ -136,6 +136,34 @@ def label_for(rng, kind="int"):
     return "L%05d" % rng.randint(0, 99999)
 
 
+def mix_block_dtypes(rng, blocks, ndtypes=None):
+    """Blocks of one array in 2-4 different element types (as left behind by sums of arrays of
+    different types with different stored sectors). Values are chosen so that ANY narrowing is
+    visible: float64 / complex128 blocks get parts that float32 cannot hold, complex blocks a
+    non-zero imaginary part. -> (new blocks dict, sorted list of dtype names)"""
+    keys = list(blocks)
+    if len(keys) < 2:
+        return blocks, sorted({str(np.asarray(b).dtype) for b in blocks.values()})
+    k = ndtypes or rng.choice([2, 2, 3, 3, 4])
+    dts = rng.sample(["float32", "float64", "complex64", "complex128"], min(k, len(keys)))
+    assign = dts + [rng.choice(dts) for _ in range(len(keys) - len(dts))]
+    rng.shuffle(assign)
+    out = {}
+    for key, dt in zip(keys, assign):
+        b = np.asarray(blocks[key])
+        re = np.round(np.real(b)).astype("float64")
+        if dt == "float32":
+            v = re.astype("float32")
+        elif dt == "float64":
+            v = re + 1.0 / 3.0
+        elif dt == "complex64":
+            v = (re + 1j * (re % 5 + 1)).astype("complex64")
+        else:
+            v = (re + 1.0 / 3.0) + 1j * (re / 7.0 + 0.1)
+        out[key] = np.ascontiguousarray(v)
+    return out, sorted(set(assign))
+
+
 # probability that make_array hands the constructor an unusual but valid form of its inputs
 EXOTIC = 0.06
 EXOTIC_SEEN = {}
@@ -216,7 +244,30 @@ def make_array(
         if nphase is None:
             nphase = rng.choice([0, 0, 1, 2, 3])
         add_phases(rng, x, nphase)
+        if EXOTIC and exotic and x.ndim and len(x.blocks) >= 2 and rng.random() < EXOTIC:
+            x = dormant_signs(sr, rng, x)
     return x
+
+
+def dormant_signs(sr, rng, x):
+    """Remove the blocks of one charge of one axis through a public operation that does not
+    synchronise (multiply_diagonal by a vector of ones that lacks that charge): pending signs
+    of the removed sectors stay behind in the table, naming blocks that no longer exist."""
+    ax = rng.randrange(x.ndim)
+    cm = x.indices[ax].chargemap
+    if len(cm) < 2:
+        return x
+    gone = rng.choice(sorted(cm))
+    dt = np.asarray(next(iter(x.blocks.values()))).dtype
+    v = sr.BlockVector({c: np.ones(d, dtype=dt) for c, d in cm.items() if c != gone})
+    try:
+        y = x.multiply_diagonal(v, ax)
+    except Exception:
+        return x
+    if not y.blocks:
+        return x
+    EXOTIC_SEEN["dormant-signs"] = EXOTIC_SEEN.get("dormant-signs", 0) + 1
+    return y
 
 
 def add_phases(rng, x, n):
